@@ -221,7 +221,8 @@ Record result := mkRes {
 Definition abort_proc (l : lstate) : lstate := die l.
 
 (* an early `return` after the process exists: failedToStart for every case, then the
-   deferred abort *)
+   deferred function (abort, then wait for the process to end: no step of its own in the
+   model, an aborted process is done) *)
 Definition early (cs : list case) (sbs : list (bytes * bytes)) (fwd : list bytes)
                  (alive : bool) : result :=
   let l := abort_proc (mkL (map (mark KSetup) cs) [] [] [] alive (if alive then 0 else 1)%nat) in
